@@ -18,7 +18,8 @@ mvars == <<mc>>
 
 \* a case: [mid, args: Seq([name, kind, size]), order: permutation of 1..Len(args) (keyword order of the call),
 \*          named: which special names the condition takes, maxstring, maxlist]
-NonRepresentable == {"cls", "func", "method", "mod", "modsub", "builtin"}   \* modsub: instance of a subclass of the module type
+\* modsub: instance of a subclass of the module type; mwrapper: a method of a built-in type bound to an instance (`x.__len__`)
+NonRepresentable == {"cls", "func", "method", "mod", "modsub", "builtin", "mwrapper"}
 Listed(a) == a.kind \notin NonRepresentable
 
 \* length of repr(str of length n) under maxstring m; number of list elements shown under maxlist k
